@@ -228,6 +228,27 @@ def one_case(dbx, rng, src_dec, long_lived, d, c, acc, label):
                     elif r2 is None or (r2.source, r2.priority) != (m2.source, m2.priority):
                         acc.violation("format-roundtrip-header-differ", f"{d.id} {fmt}: the same payload from source {m2.source} priority {m2.priority} came back as "
                                       f"{None if r2 is None else (r2.source, r2.priority)}", w)
+                # two transfers of this (addressed, multi-packet) message from ONE source to TWO destinations, packet by packet
+                # in turn: each must arrive with its own addressing
+                if pdu1 and len(pk) > 1 and fmt != "actisense" and r is not None:
+                    import copy as _copy
+                    mb = _copy.deepcopy(m)
+                    mb.destination = (dst + 7) % 250
+                    try:
+                        pkb = encode(enc, fmt, mb)
+                        dec2 = NMEA2000Decoder()
+                        got2 = []
+                        for pa, pb_ in zip(encode(enc, fmt, m), pkb):
+                            for p_ in (pa, pb_):
+                                x_ = decode_packets(fmt, [p_], dec2)
+                                if x_ is not None:
+                                    got2.append((x_.source, x_.destination))
+                    except Exception:  # noqa: BLE001
+                        got2 = None
+                    acc.count("interleaved_transfers_to_two_destinations_checked")
+                    if got2 is None or sorted(got2) != sorted([(src, dst), (src, mb.destination)]):
+                        acc.violation("interleaved-transfers-to-two-destinations-lost", f"{d.id} {fmt}: source {src} sends the message to destinations {dst} and {mb.destination} "
+                                      f"packet by packet in turn; delivered: {got2}", w)
                 if r is not None and r_long is not None and project.msg_proj(r_long) != project.msg_proj(r):
                     acc.violation("long-lived-decoder-differs-from-fresh", f"{d.id} {fmt}: a decoder that saw earlier traffic decodes the encoder's packets differently", w)
                 elif r is not None and r_long is None and not (fmt == "actisense" and codec_payload == b""):
